@@ -314,6 +314,12 @@ func (r *Run) lookupField(nt *types.Named, name string) *types.Var {
 			return st.Field(i)
 		}
 	}
+	// a field promoted from an embedded struct (the state moved into a small struct the type embeds)
+	if obj, _, _ := types.LookupFieldOrMethod(nt, true, nt.Obj().Pkg(), name); obj != nil {
+		if v, ok := obj.(*types.Var); ok && v.IsField() {
+			return v
+		}
+	}
 	r.fail("anchor not found: field %s.%s", nt.Obj().Name(), name)
 	return nil
 }
